@@ -47,8 +47,8 @@ TRUSTED = [
     'comparison, nan unordered, date-vs-datetime ordering raises TypeError, a >= b is b <= a)',
     'harness/props/c01.py adapter: value codec, exception-class mapping, read-back by identity via param.get_value_generator',
     're.match for String/Bytes regexes is an oracle bit computed by the harness with the re module (not modelled)',
-    'the deserialisation route trusts Parameter.serialize/deserialize + json (C15): the value validated is the one '
-    'deserialize_parameters returned',
+    'deserialisation route: the model deserialises the JSON-decoded value itself for the Tuple family (list -> tuple, null) and the '
+    'identity types; for the date types (strptime) it validates the value deserialize_parameters returned (trusts C15)',
     'correspondence is differential testing: model = code only on the (declaration, value, route) triples executed',
 ]
 ASSUMPTIONS = [
@@ -59,8 +59,10 @@ ASSUMPTIONS = [
     'and a Decimal next to a float NaN in one Range pair (ordering them raises decimal.InvalidOperation), tz-aware datetimes, numpy scalars, callables that refuse attribute assignment '
     '(Dynamic documents that requirement)',
     'declarations: hard bounds are bool/int/float (Number family) or date/datetime; softbounds, Number/Date step, set_hook, '
-    'compute_default_fn, dict-declared Selector objects, NaN among Selector objects, List(class_=...) alias are not exercised',
+    'compute_default_fn, NaN among Selector objects, dict-declared Selector objects other than hashable ones with string names, List(class_=...) alias are not exercised',
     'colour strings are ASCII (str.lower is modelled on ASCII)',
+    'inclusive_bounds are booleans (Number tests `is True`, so a truthy non-bool would be exclusive: not exercised)',
+    'mutation of constraint slots after the declaration is exercised for Selector.objects only (not p.bounds = ..., p.item_type = ...)',
     'Range declared with a one-item default (the constructor raises IndexError from val[1], not ValueError) is not exercised',
     'Selector/ListSelector declared with a default but with empty objects and no explicit check_on_set is not exercised: the '
     'check_on_set slot is computed lazily, after the default has been appended to the objects, and ends up True',
@@ -70,7 +72,7 @@ RULE = ('directed prefix (one case per validator branch, the witnesses of the fi
         'floats incl. nan/inf and the float neighbours of every bound, Fraction, Decimal, big ints, str, bytes, containers, dates, '
         'callables, classes, instances; Integer with a 38-value pool in the quick tier); Range the same bounds x step {None,1,-1} x ~90 pairs (every third declaration in the quick tier); length grids for the Tuple family and List, '
         'item types, Selector object lists x check_on_set x allow_None, class lattices for ClassSelector, date bounds for the four date '
-        'types, every CSS3 colour name x case variants + hex strings of length 0..8, regexes; every value through 5 routes; aliasing stream: for List/HookList/ListSelector/Selector/Dict/ClassSelector a fresh container is assigned, the object the parameter then holds is mutated in place (append/extend/insert/setitem/pop/clear) and the identical object is assigned again through instance attribute, param.update and class attribute - the verdict must be the one for its content at that moment. thorough adds '
+        'types, every CSS3 colour name x case variants + hex strings of length 0..8, regexes; every value through 5 routes; objects stream: list- and dict-declared Selector/ListSelector whose `.objects` is edited positionally (setitem/append/insert/extend) or by key after the declaration, then old and new objects assigned through the 5 routes - membership is judged against the list as it is then; aliasing stream: for List/HookList/ListSelector/Selector/Dict/ClassSelector a fresh container is assigned, the object the parameter then holds is mutated in place (append/extend/insert/setitem/pop/clear) and the identical object is assigned again through instance attribute, param.update and class attribute - the verdict must be the one for its content at that moment. thorough adds '
         'float-valued bounds and random declarations/values. non-trivial = constructor succeeded, at least one value accepted and one '
         'rejected, every attempt oracle-checked; distinct = distinct canonical case')
 
@@ -291,6 +293,10 @@ def _kwargs(ptype, args, env):
             kw[k] = None if v is None else _classes(v, env)
         elif k == 'objects':
             kw[k] = [env.dec(o) for o in v]
+            if 'names' in args:                       # dict-declared: {name: object}
+                kw[k] = dict(zip(args['names']['v'], kw[k]))
+        elif k == 'names':
+            continue
         else:
             kw[k] = v
     return kw
@@ -328,7 +334,7 @@ def apply_ops(obj, ops, dec):
         elif k == 'clear':
             obj.clear()
         elif k == 'setitem':
-            obj[op[1] if isinstance(obj, list) else dec(op[1])] = dec(op[2])
+            obj[op[1] if isinstance(obj, list) or isinstance(op[1], (int, str)) else dec(op[1])] = dec(op[2])
         elif k == 'del':
             del obj[dec(op[1])]
         else:
@@ -388,6 +394,12 @@ def run_impl(case):
                  'check_on_set': bool(p1.check_on_set) if ptype in ('Selector', 'ListSelector') else None}
         C1 = type('C1', (param.Parameterized,), {'p': p1})
         C2 = type('C2', (param.Parameterized,), {'p': p2})
+        if case.get('obj_ops'):
+            # edits of the objects list after the declaration: the constraint in force is the list as it is now
+            for C in (C1, C2):
+                apply_ops(C.param.p.objects, case['obj_ops'], env.dec)
+                if [env.enc(o) for o in C.param.p.objects] != case['objects_after']:
+                    raise _AliasBroken(f'objects after the edits: {[env.enc(o) for o in C.param.p.objects]!r}')
         inst, inst2 = C1(), C1()
         out = []
         for j in case['values']:
@@ -409,13 +421,14 @@ def run_impl(case):
                 except Exception:
                     payload = json.dumps({'p': v})
                 dv = C1.param.deserialize_parameters(payload)['p']
+                jv = env.enc(json.loads(payload)['p'])
                 dj = env.enc(dv)
             except Exception:
                 dj = Ellipsis
             if dj is not Ellipsis:
                 def de():
                     box['d'] = C1(p=dv)
-                o['deser'] = _attempt(de, lambda: box['d'].param.get_value_generator('p'), dv, eq=True) + [dj]
+                o['deser'] = _attempt(de, lambda: box['d'].param.get_value_generator('p'), dv, eq=True) + [dj, jv]
             out.append(o)
         return {'ctor': 'ok', 'slots': slots, 'vals': out, 'alias': _run_alias(case, env, C1, C2)}
     except Exception as e:  # the harness itself could not drive the object: report, do not hide
@@ -440,12 +453,29 @@ def _rx_bit(ptype, args, j):
     return False
 
 
-def mk(ptype, args, values, alias=()):
+def mk(ptype, args, values, alias=(), obj_ops=None):
     d = args['default']['v'] if 'default' in args else ({'s': ''} if ptype == 'String' else {'y': ''} if ptype == 'Bytes' else None)
     c = {'ptype': ptype, 'args': args, 'mro': MRO, 'values': values,
          'rx': [_rx_bit(ptype, args, j) for j in values], 'rx_default': _rx_bit(ptype, args, d)}
     if alias:
         c['alias'] = [al(a['start'], a['ops']) for a in alias]
+    if obj_ops:
+        # positional / key edits of Selector.objects after the declaration; `objects_after` is what a list
+        # (positional ops) resp. an insertion-ordered mapping (key ops) holds afterwards -- plain Python
+        env = Env()
+        objs = [env.dec(o) for o in args['objects']['v']]
+        names = list(args['names']['v']) if 'names' in args else None
+        for op in obj_ops:
+            if op[0] == 'setitem' and isinstance(op[1], str):
+                if op[1] in names:
+                    objs[names.index(op[1])] = env.dec(op[2])
+                else:
+                    names.append(op[1])
+                    objs.append(env.dec(op[2]))
+            else:
+                apply_ops(objs, [op], env.dec)
+        c['obj_ops'] = obj_ops
+        c['objects_after'] = [env.enc(o) for o in objs]
     return c
 
 
@@ -862,6 +892,25 @@ def alias_cases():
     yield mk('ClassSelector', A(class_=[8, 6], allow_None=True), [], [a({}, ('setitem', E('k'), E(1))), a([1], ap('x'))])
 
 
+def edited_objects_cases():
+    """the allowed objects are the list as it is at assignment time: declare (list- or dict-style), edit
+    `.objects` positionally or by key, then assign old and new objects through every route"""
+    vals = [E(v) for v in [1, 2, 3, 7, 8, 9, None, 'a', 1.0, 4]]
+    lvals = [E(v) for v in [[1], [2], [3], [7], [8], [1, 7], [2, 3], [7, 8, 9], [], None, [4]]]
+    pos = [[['setitem', 0, E(7)]], [['append', E(7)]], [['insert0', E(7)]], [['extend', [E(7), E(8)]]],
+           [['setitem', 1, E(7)], ['append', E(8)]], [['setitem', 2, E(9)], ['setitem', 0, E(7)]]]
+    key = [[['setitem', 'a', E(7)]], [['setitem', 'z', E(7)]], [['setitem', 'b', E(8)], ['setitem', 'y', E(9)]]]
+    for ptype, pool in (('Selector', vals), ('ListSelector', lvals)):
+        for extra in ({}, A(allow_None=True), A(default=E(3) if ptype == 'Selector' else E([3]))):
+            base = dict(A(objects=[E(1), E(2), E(3)]), **extra)
+            for ops in pos:
+                yield mk(ptype, dict(base), pool, (), ops)                                   # list-declared, positional edit
+                yield mk(ptype, dict(base, **A(names=['a', 'b', 'c'])), pool, (), ops)       # dict-declared, positional edit
+            for ops in key:
+                yield mk(ptype, dict(base, **A(names=['a', 'b', 'c'])), pool, (), ops)       # dict-declared, key edit
+        yield mk(ptype, dict(A(objects=[E(1), E(2), E(3)], names=['a', 'b', 'c'])), pool)    # dict-declared, untouched
+
+
 def random_alias_case(rng):
     atoms = [1, 2, 3, 4, 'a', True, None, 1.5, OA, OB, OD, F1, UA]
     def ops():
@@ -1072,7 +1121,7 @@ def cases(rng, tier, worker, nworkers):
     if worker == 0:
         for f in sorted(glob.glob(os.path.join(os.path.dirname(__file__), '..', '..', 'corpus', 'C01', '*.json'))):
             yield json.load(open(f))['case']
-    streams = [directed(), alias_cases(), string_cases(), boolean_cases(), callable_cases(), tuple_cases(), color_cases(),
+    streams = [directed(), alias_cases(), edited_objects_cases(), string_cases(), boolean_cases(), callable_cases(), tuple_cases(), color_cases(),
                number_grid('Number'),
                number_grid('Integer', pool=[E(v) for v in integer_pool()] if tier == 'quick' else None),
                number_grid('Magnitude', [None, 0, 1]), range_grid(thin=3 if tier == 'quick' else 1),
@@ -1198,32 +1247,36 @@ def shrink(case):
     alias = case.get('alias', [])
     pt, args = case['ptype'], case['args']
     n = len(vals)
+    oo = case.get('obj_ops')
+    if oo and len(oo) > 1:
+        for i in range(len(oo)):
+            yield mk(pt, args, vals, alias, oo[:i] + oo[i + 1:])
     if alias and vals:
-        yield mk(pt, args, [], alias)
+        yield mk(pt, args, [], alias, oo)
     if len(alias) > 1:
         for i in range(len(alias)):
-            yield mk(pt, args, vals, alias[:i] + alias[i + 1:])
+            yield mk(pt, args, vals, alias[:i] + alias[i + 1:], oo)
     for i, a in enumerate(alias):
         for k in range(len(a['ops'])):
-            yield mk(pt, args, vals, alias[:i] + [{'start': a['start'], 'ops': a['ops'][:k] + a['ops'][k + 1:]}] + alias[i + 1:])
+            yield mk(pt, args, vals, alias[:i] + [{'start': a['start'], 'ops': a['ops'][:k] + a['ops'][k + 1:]}] + alias[i + 1:], oo)
     if n > 1:
         for half in (vals[:n // 2], vals[n // 2:]):
-            yield mk(pt, args, half, alias)
+            yield mk(pt, args, half, alias, oo)
         if n <= 12:
             for i in range(n):
-                yield mk(pt, args, vals[:i] + vals[i + 1:], alias)
+                yield mk(pt, args, vals[:i] + vals[i + 1:], alias, oo)
     for k in list(args):
-        if k in ('class_',):
+        if k in ('class_',) or (oo and k in ('objects', 'names')):
             continue
         a = {x: y for x, y in args.items() if x != k}
-        yield mk(pt, a, vals, alias)
+        yield mk(pt, a, vals, alias, oo)
     b = args.get('bounds', {}).get('v')
     if b and pt not in ('List', 'HookList'):
         for side in (0, 1):
             if b[side] is not None:
                 nb = list(b)
                 nb[side] = None
-                yield mk(pt, dict(args, bounds={'v': nb}), vals, alias)
+                yield mk(pt, dict(args, bounds={'v': nb}), vals, alias, oo)
 
 
 def classify(case, impl, fail):
